@@ -571,8 +571,6 @@ impl ActivePeers {
     }
 
     pub fn remove(&self, peer_id: &PeerId, reason: DisconnectReason) {
-        #[cfg(bmwill_anemo_verif)]
-        verif::tap(|| verif::TapEvent::RemoveCall { peer: *peer_id });
         self.inner_mut().remove(peer_id, reason)
     }
 
@@ -582,20 +580,12 @@ impl ActivePeers {
         stable_id: usize,
         reason: DisconnectReason,
     ) {
-        #[cfg(bmwill_anemo_verif)]
-        verif::tap(|| verif::TapEvent::RemoveIdCall {
-            peer: peer_id,
-            stable_id,
-            reason: reason.clone(),
-        });
         self.inner_mut()
             .remove_with_stable_id(peer_id, stable_id, reason)
     }
 
     #[must_use]
     fn add(&self, own_peer_id: &PeerId, new_connection: Connection) -> Option<Connection> {
-        #[cfg(bmwill_anemo_verif)]
-        verif::tap_add(own_peer_id, &new_connection);
         self.inner_mut().add(own_peer_id, new_connection)
     }
 
@@ -675,6 +665,8 @@ impl ActivePeersInner {
     }
 
     fn remove(&mut self, peer_id: &PeerId, reason: DisconnectReason) {
+        #[cfg(bmwill_anemo_verif)]
+        verif::tap(self.verif_id(), || verif::TapEvent::RemoveCall { peer: *peer_id });
         if let Some(connection) = self.connections.remove(peer_id) {
             // maybe actually provide reason to other side?
             connection.close();
@@ -689,6 +681,12 @@ impl ActivePeersInner {
         stable_id: usize,
         reason: DisconnectReason,
     ) {
+        #[cfg(bmwill_anemo_verif)]
+        verif::tap(self.verif_id(), || verif::TapEvent::RemoveIdCall {
+            peer: peer_id,
+            stable_id,
+            reason: reason.clone(),
+        });
         match self.connections.entry(peer_id) {
             Entry::Occupied(entry) => {
                 // Only remove the entry if the stable id matches
@@ -704,11 +702,16 @@ impl ActivePeersInner {
         }
     }
 
+    #[cfg(bmwill_anemo_verif)]
+    fn verif_id(&self) -> usize {
+        self as *const Self as usize
+    }
+
     fn send_event(&self, event: PeerEvent) {
         #[cfg(bmwill_anemo_verif)]
         verif::point("send_event");
         #[cfg(bmwill_anemo_verif)]
-        verif::tap(|| verif::TapEvent::Event(event.clone()));
+        verif::tap(self.verif_id(), || verif::TapEvent::Event(event.clone()));
         // We don't care if anyone is listening
         let _ = self.peer_event_sender.send(event);
     }
@@ -717,6 +720,8 @@ impl ActivePeersInner {
     fn add(&mut self, own_peer_id: &PeerId, new_connection: Connection) -> Option<Connection> {
         // TODO drop Connection if you've somehow connected out ourself
 
+        #[cfg(bmwill_anemo_verif)]
+        verif::tap_add(self.verif_id(), own_peer_id, &new_connection);
         let peer_id = new_connection.peer_id();
         match self.connections.entry(peer_id) {
             Entry::Occupied(mut entry) => {
